@@ -27,7 +27,8 @@ CFG = {'streams': [{'name': 'C08',
                 'stdlib function but node/format/join. Earlier theorems kept: scoped-variable forcing is permutation invariant; deferred edge and '
                 'attribute operations give the same graph in every order. Direct stream: every permutation on the implementation.',
  'partial': ['lazy_block_order_iso (whole-run invariance up to graph isomorphism) is proved on the fragment: no scoped variables (blocks do not '
-             'communicate; the stretch STEP 4 with scoped-variable cells is not done), called functions graph-pure and equivariant under '
+             'communicate; STEP 4 with scoped-variable cells is not done: a reader before its definer makes the store non-acyclic by index and sets may '
+             'mix nodes of several blocks, so new forcing lemmas and an isomorphism up to re-sorting of sets are needed), called functions graph-pure and equivariant under '
              'order-preserving renamings (all stdlib functions except node, format, join), globals only mention nodes of a closed initial graph, '
              'no debug attributes (with a location attribute an edge created by two stanzas keeps the attribute of the statement evaluated first: '
              'the property as stated fails there), no cancellation budget. The fuel needed by the permuted run may be larger (a thunk may be forced '
